@@ -413,7 +413,7 @@ func genCase(rng *rand.Rand, id string, p genParams) cases.ScanCase {
 			sc.Dates[i] = 1000000000
 		}
 	}
-	sc.Layout = []string{"loose", "loose", "packed", "packrefs", "both"}[rng.Intn(5)]
+	sc.Layout = []string{"loose", "loose", "packed", "packrefs", "both", "bitmap", "commitgraph", "twopacks", "alternates"}[rng.Intn(9)]
 	sc.Noise = rng.Intn(3) == 0
 	sc.Bare = rng.Intn(4) == 0
 	if sc.Noise {
